@@ -134,7 +134,7 @@ theorem C20_file_of_origin (f : Resolve.File) (s : Resolve.Schema) (fb fwd : Boo
     (h : d ∈ Resolve.pass1 f s ∨ d ∈ Resolve.pass2 f fb s ∨
          d ∈ Resolve.pass3 (Resolve.fileOf f s) (Resolve.envOf f fb s) s ∨
          d ∈ Resolve.pass4 (Resolve.fileOf f s) (Resolve.envOf f fb s) s ∨
-         d ∈ (Resolve.pass5 (Resolve.fileOf f s) s).diags) :
+         d ∈ (Resolve.pass5 (Resolve.fileOf f s) (Resolve.envOf f fb s) s).diags) :
     d.file = (Resolve.fileOf f s).toList ∧
     ∃ rest, message fwd amb d = (Resolve.fileOf f s).toList ++ ':' :: rest := by
   have hb : Resolve.OKd (Resolve.fileOf f s) d := by
@@ -143,7 +143,7 @@ theorem C20_file_of_origin (f : Resolve.File) (s : Resolve.Schema) (fb fwd : Boo
     · exact Resolve.pass2_ok f fb s d h
     · exact Resolve.pass3_ok _ _ s d h
     · exact Resolve.pass4_ok _ _ s d h
-    · exact Resolve.pass5_ok _ s d h
+    · exact Resolve.pass5_ok _ _ s d h
   have hf := hb.1
   have hv : d.via ≠ .plain := by rw [hb.2.1]; decide
   obtain ⟨rest, hr⟩ := C20_file_attributed fwd amb d hv
